@@ -25,6 +25,8 @@ ASSUMPTIONS = [
 SIG = "C04|{}|{}"
 BUDGET_S = {"quick": 480, "thorough": 2400}
 SENT = -777.0
+KNOWN_BUF = {"buffer", "Batch", "buffer_size", "current_len", "insert_idx", "priority", "mask_", "episode_timesteps", "environment_terminates", "horizon"}
+KNOWN_PRI = {"priority", "max_priority", "sampled_indices"}
 
 
 def items(tier, seed):
@@ -126,9 +128,9 @@ def canon(bd):
         ep, k, g = slot_info(bd, i)
         real = is_real_step(bd, row) is not None
         slots.append((bd.ep - ep, gnow - g, int(row["terminated"]), int(row["truncated"]), real))
-    extra = ()
+    extra = (e1.hidden_state(buf, KNOWN_BUF),)
     if hasattr(buf, "priority"):
-        extra = (tuple(buf.priority.priority[: buf.current_len].tolist()), buf.priority.max_priority)
+        extra += (tuple(buf.priority.priority[: buf.current_len].tolist()), buf.priority.max_priority, e1.hidden_state(buf.priority, KNOWN_PRI))
     return (
         buf.insert_idx,
         buf.current_len,
